@@ -1542,3 +1542,31 @@ Proof.
   pose proof (run_excess ops _ Hi) as He. pose proof (run_conserved ops _ Hi) as Hs.
   unfold excess in He. simpl in *. unfold bal in He at 2. simpl in He. split; lia.
 Qed.
+
+(** propose: exactly the configured fee moves from the proposer into the contract; the new proposal
+    gets the next id, snapshots the current configuration and block, and starts with empty tallies *)
+Lemma propose_fee g c tok amt nact gas g' o :
+  ep_propose g c tok amt nact gas = Ok (g', o) ->
+  is_sc c = false /\ tok = FEE_TOK /\ amt = g_min_fee g /\ g_min_energy g <= energy_of g c /\
+  o = [nprops g + 1] /\
+  get_prop g' (nprops g + 1) = Some (new_proposal g c amt) /\
+  (forall id p, get_prop g id = Some p -> get_prop g' id = Some p) /\
+  bal g' SELF = bal g SELF + amt /\ bal g' c = bal g c - amt /\
+  (forall a, a <> SELF -> a <> c -> bal g' a = bal g a) /\
+  g_burned g' = g_burned g /\ g_voted g' = g_voted g.
+Proof.
+  intros H. apply propose_spec in H. destruct H as (Hsc & Ht & Ha & _ & He & _ & g1 & Hx & -> & Ho).
+  pose proof (is_sc_false _ Hsc) as [HcS _].
+  pose proof (xfer_spec _ _ _ _ _ Hx) as (_ & Hb & Hbu & Hc & _). core_eqs Hc.
+  split; [exact Hsc|]. split; [exact Ht|]. split; [exact Ha|]. split; [exact He|]. split; [exact Ho|].
+  split. { rewrite get_prop_getp. simpl. rewrite Hpr. unfold nprops. apply getp_app_new. }
+  split. { intros id p Hp. rewrite get_prop_getp. simpl. rewrite Hpr. apply getp_app_old. exact Hp. }
+  split. { change (bal g1 SELF = bal g SELF + amt). rewrite (Hb SELF), Z.eqb_refl.
+           destruct (SELF =? c) eqn:E; [apply Z.eqb_eq in E; congruence|]. lia. }
+  split. { change (bal g1 c = bal g c - amt). rewrite (Hb c), Z.eqb_refl.
+           destruct (c =? SELF) eqn:E; [apply Z.eqb_eq in E; congruence|]. lia. }
+  split. { intros a A1 A2. change (bal g1 a = bal g a). rewrite (Hb a).
+           destruct (a =? c) eqn:E1; [apply Z.eqb_eq in E1; congruence|].
+           destruct (a =? SELF) eqn:E2; [apply Z.eqb_eq in E2; congruence|]. lia. }
+  split; [exact Hbu | exact Hvo].
+Qed.
